@@ -46,9 +46,10 @@ InvIdempotent == Check("InvIdempotent", IdempotentLaw(g, o))
 InvNil        == Check("InvNil", NilLaw(g, o))
 InvLowerCamel == Check("InvLowerCamel", LowerCamelLaw(g, o))
 InvValueLaws  == Check("InvValueLaws", ValueLaws(g, o))
+InvMarshaler  == Check("InvMarshaler", MarshalerLaw(g, o))
 \* the readings differ only where the statement leaves a choice
 InvReadings   == Check("InvReadings",
-                   ~HasEmb(g) => Acceptable(g, o) = {Convert(g, o, Rd0)})
+                   Unambiguous(g) => Acceptable(g, o) = {Convert(g, o, Rd0)})
 
 -----------------------------------------------------------------------------
 \* M2 export
